@@ -155,9 +155,10 @@ type worker struct {
 	backend *httptest.Server
 	h       http.Handler
 	cur     struct {
-		cfg   config
-		body  []byte
-		abort bool // the backend announces the whole body, sends the first half and drops the connection
+		cfg    config
+		body   []byte
+		status int // 0 = 200
+		abort  bool // the backend announces the whole body, sends the first half and drops the connection
 	}
 }
 
@@ -195,7 +196,18 @@ func newWorker() *worker {
 		if c.skipMarker {
 			rw.Header().Set("templ-skip-modify", "true")
 		}
+		if w.cur.status == http.StatusNoContent || w.cur.status == http.StatusNotModified {
+			rw.WriteHeader(w.cur.status) // no body, no length
+			return
+		}
 		rw.Header().Set("Content-Length", strconv.Itoa(len(w.cur.body)))
+		if w.cur.status == http.StatusPartialContent {
+			rw.Header().Set("Content-Range", fmt.Sprintf("bytes 0-%d/%d", len(w.cur.body)-1, 2*len(w.cur.body)))
+			rw.WriteHeader(w.cur.status)
+		}
+		if r.Method == http.MethodHead {
+			return // headers only
+		}
 		if w.cur.abort {
 			rw.Write(w.cur.body[:len(w.cur.body)/2])
 			if f, ok := rw.(http.Flusher); ok {
@@ -294,6 +306,58 @@ func (w *worker) check(cfg config, docName string, doc []byte) {
 			key = "script-count"
 		}
 		viol(key, "decoded document is not the original plus one reload script at the end of body: "+pr)
+	}
+}
+
+// bodyless: responses that carry no document to add anything to — the answer to a HEAD request, 204 No Content, 304
+// Not Modified — and responses that carry only a part of one (206). They must reach the browser as the backend sent
+// them: same status, same entity headers, same bytes.
+func (w *worker) bodyless(cfg config, kind string, doc []byte) {
+	evals.Add(1)
+	w.cur.cfg = cfg
+	w.cur.body = encode(cfg.enc, doc)
+	method := "GET"
+	w.cur.status = 0
+	switch kind {
+	case "HEAD":
+		method = "HEAD"
+	case "204":
+		w.cur.status = http.StatusNoContent
+	case "304":
+		w.cur.status = http.StatusNotModified
+	case "206":
+		w.cur.status = http.StatusPartialContent
+	}
+	defer func() { w.cur.status = 0 }()
+	req := httptest.NewRequest(method, "/page", nil)
+	req.Header.Set("Accept-Encoding", "gzip, deflate, br, zstd")
+	rec := httptest.NewRecorder()
+	w.h.ServeHTTP(rec, req)
+	res := rec.Result()
+	got, _ := io.ReadAll(res.Body)
+	replay := map[string]any{"config": cfg.String(), "kind": kind}
+	viol := func(what string) {
+		run.Violation("bodyless-"+kind, fmt.Sprintf("%s, %s response: %s", cfg, kind, what), replay)
+	}
+	wantStatus := map[string]int{"HEAD": 200, "204": 204, "304": 304, "206": 206}[kind]
+	if res.StatusCode != wantStatus {
+		viol(fmt.Sprintf("status %d, the backend sent %d", res.StatusCode, wantStatus))
+		return
+	}
+	wantBody := []byte{}
+	if kind == "206" {
+		wantBody = w.cur.body
+	}
+	if !bytes.Equal(got, wantBody) {
+		viol(fmt.Sprintf("%d body bytes reach the client, the backend sent %d", len(got), len(wantBody)))
+	}
+	if kind == "HEAD" || kind == "206" {
+		if cl := res.Header.Get("Content-Length"); cl != strconv.Itoa(len(w.cur.body)) {
+			viol(fmt.Sprintf("Content-Length %q, the backend announced %d", cl, len(w.cur.body)))
+		}
+	}
+	if ce := res.Header.Get("Content-Encoding"); ce != cfg.enc {
+		viol(fmt.Sprintf("Content-Encoding %q, the backend sent %q", ce, cfg.enc))
 	}
 }
 
@@ -595,6 +659,21 @@ func main() {
 				}
 			}
 		}
+		// responses without a document: HEAD, 204, 304, and partial content
+		bodyless := 0
+		for _, e := range []string{"", "gzip", "br", "zstd"} {
+			for _, ct := range []string{"text/html", "text/html; charset=utf-8", "application/json"} {
+				for _, kind := range []string{"HEAD", "204", "304", "206"} {
+					for _, d := range rep[:3] {
+						w.bodyless(config{e, ct, csps[2].csp, csps[2].nonce, false, false, true}, kind, []byte(d.text))
+						bodyless++
+						// and an ordinary page through the same handler afterwards
+						w.check(config{e, "text/html", "", "", false, false, true}, d.name+" (after a "+kind+" response)", []byte(d.text))
+					}
+				}
+			}
+		}
+		run.Cov["responses_without_a_document"] = bodyless
 		w.backend.Close()
 		run.Cov["same_document_consecutive_responses"] = hist
 		run.Cov["broken_upstream_responses_followed_by_ordinary_ones"] = faults
